@@ -2371,6 +2371,17 @@ pub struct VerifDump {
 /// Introspection for the verification hooks (`--cfg raindb_verif` only).
 #[cfg(raindb_verif)]
 impl DB {
+    /// Run `remove_obsolete_files` once, as the end of a flush or compaction would.
+    pub fn verif_collect_garbage(&self) {
+        let mut guard = self.guarded_fields.lock();
+        DB::remove_obsolete_files(
+            &mut guard,
+            self.options.filesystem_provider(),
+            &self.file_name_handler,
+            &self.table_cache,
+        );
+    }
+
     /// Dump the structure of the database under the database mutex.
     pub fn verif_dump(&self) -> VerifDump {
         fn entries(memtable: &dyn MemTable) -> Vec<(Vec<u8>, u64, u8, Vec<u8>)> {
